@@ -18,6 +18,7 @@ CXX = os.environ.get("VERIF_CXX", "g++")
 COMMON = ["-std=gnu++11", "-w", "-I" + COLA, "-DUSE_ASSERT_EXCEPTIONS", "-fno-var-tracking-assignments"]
 VARIANTS = {
     "chk": ["-O1", "-g1"],
+    "cov": ["-O0", "-g1", "--coverage"],   # development aid (tools/coverage.sh): which library lines do the quick tiers execute?
     "san": ["-O1", "-g1", "-fsanitize=address,undefined", "-fno-sanitize-recover=undefined",
             "-fno-omit-frame-pointer", "-ftrivial-auto-var-init=pattern"],
 }
